@@ -132,10 +132,16 @@ def check_ctor_folds(ctx):
         ctx.violation(rule, fi, 'Optional(default omitted) -> %s' % (canon(d) if d is not None else None), 'expected default=None stored unchanged', fi.node.lineno, clause='a')
     # ---- Ref
     ci = repo.cls('Ref')
-    fi = ci.methods.get('_lets_find_a_nice_default')
     ini = ci.methods.get('__init__')
+    fi = None
+    helper = None
+    if ini is not None:
+        for n_ in ast.walk(ini.node):
+            if isinstance(n_, ast.Call) and isinstance(n_.func, ast.Attribute) and canon(n_.func.value) == 'self' and [canon(a) for a in n_.args] == ['prototype', 'default']:
+                helper = n_.func.attr
+                fi = ci.methods.get(helper)
     if fi is None or ini is None:
-        raise Undecided('anchor Ref.__init__ / _lets_find_a_nice_default not found')
+        raise Undecided('cannot find the default-selection helper that Ref.__init__ calls with (prototype, default)')
     ctx.unit('functions', 2)
     seen = set()
     for p in w.paths(fi.node, cls=ci):
@@ -169,7 +175,7 @@ def check_ctor_folds(ctx):
     if not {'dyn-none', 'dyn-given', 'pkt'} <= seen:
         ctx.violation(rule, fi, 'Ref default cases %s' % sorted(seen), 'expected the callable-without-default, callable-with-default and packet cases', fi.node.lineno, clause='a')
     src = unparse(ini.node)
-    if 'if isinstance(prototype, type):' in src and 'prototype = prototype()' in src and 'self._lets_find_a_nice_default(prototype, default)' in src:
+    if 'if isinstance(prototype, type):' in src and 'prototype = prototype()' in src and ('self.%s(prototype, default)' % helper) in src:
         ctx.holds(rule, ini, 'Ref(PacketClass) == Ref(PacketClass()); default rule applied to the instance', 'class shortcut', ini.node.lineno, clause='a')
     else:
         ctx.violation(rule, ini, 'Ref.__init__', 'the packet-class shortcut or the default rule is missing', ini.node.lineno, clause='a')
